@@ -80,6 +80,7 @@ SPECS["C02"] = dict(
     jobs=[
         plain("TestC02CoreExhaustive", sq=4, st=16, env={"C02_K": {Q: 6, T: 8}, "C02_NCFG": {Q: 6, T: 12}}),
         rapid("TestC02CoreSampled", 500, 15000, sq=4, st=16),
+        rapid("TestC02Session", 150, 3000, sq=4, st=16),
     ],
 )
 
